@@ -711,11 +711,12 @@ class StructureVisitor(ASTTemplate):
         for name, comp in left_ds.components.items():
             is_common_id = comp.role == Role.IDENTIFIER and name in all_ids
             is_common_measure = comp.role == Role.MEASURE and name in right_measures
-            if is_common_id or is_common_measure:
+            is_viral = comp.role == Role.VIRAL_ATTRIBUTE
+            if is_common_id or is_common_measure or is_viral:
                 comps[name] = comp
-        # Add identifiers from right that aren't in left
+        # Add identifiers and viral attributes from right that aren't in left
         for name, comp in right_ds.components.items():
-            if comp.role == Role.IDENTIFIER and name not in comps:
+            if comp.role in (Role.IDENTIFIER, Role.VIRAL_ATTRIBUTE) and name not in comps:
                 comps[name] = comp
 
         return Dataset(name=left_ds.name, components=comps, data=None)
